@@ -65,6 +65,12 @@ CHECKS["C10"] = dict(
    note="Trusted: the validity tables in checks/c10.go (combinations they leave unclassified are checked for panics only).",
    design="5/C10")
 
+CHECKS["C12"] = dict(
+   technique="deviation-bounded exhaustive exploration of io.Reader answers (read fragmentation, EOF placement) x grammar-generated documents x configurations, on ReadCSV and on the real scanner through a buffer-capacity seam; differential + reference-parser oracles",
+   text="The harness owns the io.Reader: for every RFC 4180 document of the grammar family it enumerates every read schedule with up to 2 (quick) / 3 (thorough) departures from the single-read default, all uniform k-byte readers and both EOF conventions, and for documents up to 11 (13) bytes every one of the 2^(L-1) fragmentations, also against the real scanner started with a 1-8 byte buffer so refill/shift/reallocation happen on tiny inputs. Every execution must equal the single-read result (differential) and the frame denoted by a reference parser plus type inference; configuration product, long fields around the 1024/2049-byte buffer boundaries and the RowCountHint resize are enumerated as families.",
+   note="Trusted: model/csv.go reference parser, strconv-based type inference. Zero-byte reads without error and malformed documents are outside the property.",
+   design="5/C12")
+
 NOT_YET = {}
 BASELINE_CMD = "for m in $(cat /w/out/gomods.txt); do MF=$(cd /repo/$m && . /w/out/goenv.sh && gomodflag); (cd /repo/$m && go test $MF -json -vet=off -count=1 -timeout 25m ./...); done"
 
